@@ -1,4 +1,37 @@
-"""C02 — work in progress (environment model + chunking)"""
+"""C02 — stream publish/decrypt round trip and descriptor commitments.
+
+Deductive part.  The real `file_reader`, `read_bytes`, `StreamDescriptor.create_stream / __init__ / get_stream_hash /
+calculate_stream_hash / get_blob_hashsum / calculate_sd_hash / as_json / make_sd_blob / _from_stream_descriptor_blob`,
+`sanitize_file_name`, `encrypt_blob_bytes`, `decrypt_blob_bytes`, `AbstractBlob.create_from_unencrypted` (through `BlobFile`,
+its blob writer, `HashBlobWriter.write` and the write to the blob directory), `BlobInfo.as_dict` and `is_valid_blobhash` are
+symbolically executed.  File contents, keys, IVs, names and every descriptor field are symbolic; what is unrolled is the
+NUMBER of chunks (1, 2, 3 chunks: every file size from 1 byte to 3*(2 MiB - 1) bytes, by a case split
+(k-1)*CHUNK < size <= k*CHUNK) and the number of blob entries of a descriptor document (1..3).
+
+The oracle is written from the statement / protocol definition: `spec_decrypt` (AES-CBC + PKCS7 with the descriptor's key and
+IVs), `spec_stream_hash` / `spec_sd_content` (the stated SHA-384 commitments), `consistent`, the literal 2 MiB bound, and
+`CLEAN` (no separator, NUL, control character).
+
+The operating system, asyncio, json, AES and PKCS7 are NOT executed symbolically: an environment model in this file
+stands for them on the symbolic side (a file system as a map from path strings to byte strings; AES-CBC and PKCS7 as
+uninterpreted functions with their inverse and length laws; json.dumps as a canonical text whose only property is that
+json.loads inverts it; os.path functions by their POSIX definitions as regular constraints).  Natively (replay of
+counter-models and the bounded run-time cases) the real libraries run against a scratch directory.  Every assumption of
+that model is listed under TRUSTED.
+
+Modular steps: (1) `is_valid_blobhash(hex SHA-384 digest)` is truthy — lemma proved on the real function, used at the call
+sites in `AbstractBlob.__init__`; (2) inside the `create_stream` proofs `sanitize_file_name` is used through the contract
+proved for every string by proof `sanitize_file_name`.
+
+Loading: accepted-implies-consistent is proved for every document of the descriptor shape (`load[n]`); for documents whose
+stream hash was re-computed over inconsistent content only the structural checks can refuse, and they are shown to refuse
+exactly the inconsistent ones (`load.rehashed[n]`: consistent documents are accepted).  Tampering (`tamper[n]`): for every
+single-field change of a valid descriptor, "accepted" is shown to imply an explicit SHA-384 collision between the hash
+inputs of the two descriptors (so refusal holds under collision resistance, which is a hypothesis, not a theorem).
+
+Bounded stand-ins (labelled, never counted as proved): arbitrary bytes offered as a descriptor blob (json.loads on arbitrary
+text has no model); files of 4 and 5 chunks and publish-then-load through the real code.
+"""
 import asyncio
 import json
 import os
@@ -17,13 +50,13 @@ from pyvc.segs import VSegs, to_vbytes
 from cryptography.hazmat.primitives.ciphers import Cipher, modes
 from cryptography.hazmat.primitives.ciphers.algorithms import AES
 from cryptography.hazmat.primitives.padding import PKCS7
-from lbry.blob import MAX_BLOB_SIZE
 from lbry.blob.blob_file import encrypt_blob_bytes, decrypt_blob_bytes, AbstractBlob, BlobFile, BlobBuffer
 from lbry.blob.blob_info import BlobInfo
-from lbry.stream import descriptor as D
 from lbry.stream.descriptor import StreamDescriptor, file_reader, sanitize_file_name
 
-CHUNK = MAX_BLOB_SIZE - 1          # plaintext bytes per data blob (statement: "chunking at MAX_BLOB_SIZE-1 plaintext bytes")
+QUERY_S = 5      # per-query solver budget of every proof here (same class as the engine's vacuity canaries: one solver batch)
+CHUNK = 2 * 2 ** 20 - 1            # plaintext bytes per data blob, from the statement (2 MiB blobs, chunking at MAX_BLOB_SIZE-1);
+                                   # deliberately NOT read from the repository constant
 
 
 # =====================================================================================================
@@ -248,139 +281,6 @@ def _m_isdir(interp, st, args, kwargs):
 def _m_isfile(interp, st, args, kwargs):
     i = _vfs_lookup(interp, st, args[0])
     yield st, VBool(i is not None and _vfs(st)[i][1] is not _DIR)
-
-
-class _Loop:
-    """the event loop as the code under contract uses it: work handed to an executor or wrapped in a task has
-    completed by the time the awaiting coroutine continues"""
-
-    def run_in_executor(self, executor, fn, *args):
-        return fn(*args)
-
-    def create_task(self, coro):
-        return _Task(coro)
-
-    def is_closed(self):
-        return False
-
-
-class _Task:
-    def __init__(self, value):
-        self.value = value
-
-    def add_done_callback(self, cb):
-        cb(self)
-
-    def done(self):
-        return True
-
-
-@model_for(asyncio.get_event_loop)
-def _m_get_event_loop(interp, st, args, kwargs):
-    yield from interp.instantiate(st, _Loop, [], {})
-
-
-
-class _Event:
-    """asyncio.Event without a scheduler: waiting on an event that is not set would block for ever"""
-
-    def __init__(self):
-        self.flag = False
-
-    def set(self):
-        self.flag = True
-
-    def clear(self):
-        self.flag = False
-
-    def is_set(self):
-        return self.flag
-
-    async def wait(self):
-        if not self.flag:
-            raise _WouldBlock("await on an event nobody will set")
-        return True
-
-
-class _WouldBlock(Exception):
-    """the modelled coroutine would never be resumed (dead lock)"""
-
-
-class _Future:
-    """asyncio.Future as HashBlobWriter / AbstractBlob use it; done-callbacks run as soon as the result is set
-    (natively: before the coroutine waiting for their effect is resumed)"""
-
-    def __init__(self):
-        self.state = 'pending'
-        self.value = None
-        self.callbacks = []
-
-    def add_done_callback(self, cb):
-        if self.state == 'pending':
-            self.callbacks.append(cb)
-        else:
-            cb(self)
-
-    def _fire(self):
-        cbs = self.callbacks
-        self.callbacks = []
-        for cb in cbs:
-            cb(self)
-
-    def done(self):
-        return self.state != 'pending'
-
-    def cancelled(self):
-        return self.state == 'cancelled'
-
-    def cancel(self):
-        if self.state != 'pending':
-            return False
-        self.state = 'cancelled'
-        self._fire()
-        return True
-
-    def set_result(self, value):
-        if self.state != 'pending':
-            raise asyncio.InvalidStateError('invalid state')
-        self.state = 'result'
-        self.value = value
-        self._fire()
-
-    def set_exception(self, err):
-        if self.state != 'pending':
-            raise asyncio.InvalidStateError('invalid state')
-        self.state = 'exception'
-        self.value = err
-        self._fire()
-
-    def exception(self):
-        if self.state == 'cancelled':
-            raise asyncio.CancelledError()
-        if self.state == 'pending':
-            raise asyncio.InvalidStateError('Exception is not set.')
-        if self.state == 'exception':
-            return self.value
-        return None
-
-    def result(self):
-        if self.state == 'cancelled':
-            raise asyncio.CancelledError()
-        if self.state == 'pending':
-            raise asyncio.InvalidStateError('Result is not ready.')
-        if self.state == 'exception':
-            raise self.value
-        return self.value
-
-
-@model_for(asyncio.Event)
-def _m_event(interp, st, args, kwargs):
-    yield from interp.instantiate(st, _Event, [], {})
-
-
-@model_for(asyncio.Future)
-def _m_future(interp, st, args, kwargs):
-    yield from interp.instantiate(st, _Future, [], {})
 
 
 @model_for(time.time)
@@ -649,7 +549,6 @@ def _m_PKCS7(interp, st, args, kwargs):
     yield from interp.instantiate(st, _PKCS7, args, kwargs)
 
 
-
 # ---- json: canonical text as a deterministic function of the structure; loads inverts dumps -------------------
 
 JSON_STR = z3.Function('json_string_literal', _S, _S)      # the quoted, escaped JSON literal of a string
@@ -763,19 +662,6 @@ def _m_json_loads(interp, st, args, kwargs):
 
 # ---- re.sub(R, '', s) for a pattern that is an alternation containing character-class runs --------------------
 
-def use_contract_models():
-    """(symbolic side) switch on the models of this file that refine a model the engine installs itself"""
-    return None
-
-
-@model_for(use_contract_models)
-def _m_use_contract_models(interp, st, args, kwargs):
-    interp.models[re.sub] = _re_sub_classes
-    interp.method_models[(re.Pattern, 'sub')] = lambda interp, st, args, kwargs: _re_sub_classes(
-        interp, st, [args[0], args[1], args[2]], kwargs)
-    yield st, VNone
-
-
 def removed_classes(pattern):
     """Character classes C such that pattern.sub('', s) never contains a C character: the leading alternatives of the
     pattern (in order), as long as they cannot match the empty string, that are a run `[C]+` or a single `[C]`.
@@ -805,6 +691,7 @@ def removed_classes(pattern):
     return classes
 
 
+@model_for(re.sub)
 def _re_sub_classes(interp, st, args, kwargs):
     from pyvc import regex as R
     pat, repl, s = args[0], args[1], args[2]
@@ -829,9 +716,27 @@ def _re_sub_classes(interp, st, args, kwargs):
     res = z3.String(fresh_name('resub'))
     st.assume(z3.InRe(res, z3.Star(notC)))
     st.assume(z3.Length(res) <= z3.Length(s.term()))
+    # substitution by '' only deletes: a kind of character absent from s is absent from the result (stated for the kinds the
+    # property talks about, so that counter-models are realistic: a bad character in the result comes from the input)
+    for kind in (R.rng(0x2f, 0x2f), R.rng(0x5c, 0x5c), R.rng(0, 0x1f)):
+        without = z3.Star(z3.Intersect(R.allchar(), z3.Complement(kind)))
+        st.assume(z3.Implies(z3.InRe(s.term(), without), z3.InRe(res, without)))
     interp.builtins_used.add("re.sub(alternation with character-class runs, '') [result free of the classes' characters]")
     yield st, mk_like(s, res)
 
+
+# ---- binascii.unhexlify: the engine's model, plus the shortcut unhexlify(hexlify(x)) == x --------------------------------
+
+@model_for(binascii.unhexlify)
+def _m_unhexlify(interp, st, args, kwargs):
+    v = args[0]
+    if isinstance(v, (VStr, VBytes)) and not v.concrete:
+        t = v.term()
+        if z3.is_app(t) and t.decl().name() == 'hexlify':
+            yield st, VBytes(t.arg(0))      # hexlify's contract (the ground axiom the solver gets anyway), applied syntactically
+            return
+    from pyvc import builtins_model2 as _b2
+    yield from _b2.m_unhexlify(interp, st, args, kwargs)
 
 
 # ---- modular use of a lemma about a repository function ------------------------------------------------------
@@ -855,6 +760,38 @@ def _m_is_valid_blobhash(interp, st, args, kwargs):
     f = _blob_file.is_valid_blobhash
     from pyvc.sources import SOURCES
     yield from interp.call_ast(st, SOURCES.node_of(f), f.__globals__, [], [], {}, f.__qualname__, f.__code__.co_filename,
+                               list(args), dict(kwargs))
+
+
+CLEAN = r'[^/\\\x00-\x1f]*'        # no path separator, no NUL, no control character
+
+
+def use_sanitize_contract():
+    """(symbolic side) from here on sanitize_file_name is used through its proved contract (proof `sanitize_file_name`)"""
+    return None
+
+
+@model_for(use_sanitize_contract)
+def _m_use_sanitize_contract(interp, st, args, kwargs):
+    st.ghost['c02.modular_sanitize'] = True
+    yield st, VNone
+
+
+@model_for(sanitize_file_name)
+def _m_sanitize(interp, st, args, kwargs):
+    """modular: inside the stream proofs the result of sanitize_file_name is *some* string with the property proved for
+    every input by proof `sanitize_file_name`; everywhere else the real body is executed"""
+    if st.ghost.get('c02.modular_sanitize') and len(args) == 1 and not kwargs and isinstance(args[0], VStr):
+        from pyvc import regex as R
+        r = z3.String(fresh_name('suggested'))
+        st.assume(z3.InRe(r, R.parsed(re.compile(CLEAN)).body_re()))
+        interp.assumptions.add("modular: sanitize_file_name(any str) returns a str matching CLEAN (proof sanitize_file_name)")
+        yield st, VStr(r)
+        return
+    f = sanitize_file_name
+    from pyvc.sources import SOURCES
+    defaults = [lift(d) for d in (f.__defaults__ or ())]
+    yield from interp.call_ast(st, SOURCES.node_of(f), f.__globals__, [], defaults, {}, f.__qualname__, f.__code__.co_filename,
                                list(args), dict(kwargs))
 
 
@@ -937,74 +874,13 @@ def _m_cleanup(interp, st, args, kwargs):
 
 
 # =====================================================================================================
-# 1. chunking
+# 1. names the scratch file system can hold
 # =====================================================================================================
 
 def name_ok(name):
-    """file names the scratch file system can hold (POSIX: no '/', no NUL, not '.' or '..', at most 255 bytes)"""
-    return (0 < len(name) and len(name.encode()) <= 255 and '/' not in name and '\x00' not in name
-            and name != '.' and name != '..')
-
-
-async def read_all(parts):
-    base = workspace()
-    try:
-        data = b''
-        for p in parts:
-            data = data + p
-        path = put_file(base, 'f.bin', data)
-        out = []
-        async for chunk in file_reader(path):
-            out.append(chunk)
-        return out, data
-    finally:
-        cleanup(base)
-
-
-def make_chunking_proof(k):
-    types = {}
-    for i in range(k - 1):
-        types[f"c{i}"] = TBytes(length=CHUNK)
-    types["tail"] = TBytes(minlen=1, maxlen=CHUNK)
-    names = list(types)
-
-    async def run(**kw):
-        return await read_all([kw[n] for n in names])
-
-    def ensures_reassembles(result):
-        return b''.join(result[0]) == result[1]
-
-    def ensures_chunk_sizes(result):
-        ok = len(result[0]) == k
-        for c in result[0]:
-            ok = ok and 1 <= len(c) <= CHUNK
-        return ok
-
-    import inspect
-    run.__signature__ = inspect.Signature([inspect.Parameter(n, inspect.Parameter.POSITIONAL_OR_KEYWORD) for n in names])
-
-    def samples():
-        for tail in (1, 15, 16, 17, CHUNK - 1, CHUNK):
-            d = {f"c{i}": bytes([i + 1]) * CHUNK for i in range(k - 1)}
-            d["tail"] = bytes((j * 7 + tail) % 256 for j in range(min(tail, 4096))) * (tail // 4096 + 1)
-            d["tail"] = d["tail"][:tail]
-            yield d
-
-    body = dict(inputs=types, run=staticmethod(run), samples=staticmethod(samples),
-                ensures_reassembles=staticmethod(ensures_reassembles), ensures_chunk_sizes=staticmethod(ensures_chunk_sizes),
-                note=f"{k} chunk(s): last chunk of 1, 15, 16, 17, CHUNK-1, CHUNK bytes",
-                __doc__=f"file_reader on every file of {(k - 1)}*(MAX_BLOB_SIZE-1)+1 .. {k}*(MAX_BLOB_SIZE-1) bytes: exactly {k} chunks of "
-                        f"1..MAX_BLOB_SIZE-1 bytes whose concatenation is the file")
-    proof("C02", f"file_reader[{k}]")(type('Chunking', (), body))
-
-
-for _k in (1, 2, 3):
-    make_chunking_proof(_k)
-
-
-TRUSTED = []
-NOT_DECIDED = []
-ASSUMPTIONS = []
+    """file names the scratch file system can hold (POSIX: no '/', no NUL, not '.' or '..', at most 255 bytes: here at
+    most 60 code points)"""
+    return 0 < len(name) <= 60 and '/' not in name and '\x00' not in name and name != '.' and name != '..'
 
 
 # =====================================================================================================
@@ -1025,7 +901,7 @@ class BlobRoundTrip:
     most 2 MiB) and the blob is named by the SHA-384 of the ciphertext"""
     inputs = dict(key=TOneOf(TBytes(length=16), TBytes(length=24), TBytes(length=32)), iv=TBytes(length=16), data=TBytes(maxlen=CHUNK))
     note = "plaintext lengths 0, 1, 15, 16, 17, 31, 32, 4095, 4096, CHUNK-16, CHUNK-15, CHUNK-1, CHUNK x key sizes 16/24/32"
-    timeout = 6
+    timeout = QUERY_S
 
     def run(key, iv, data):
         ct, name = encrypt_blob_bytes(key, iv, data)
@@ -1054,6 +930,7 @@ class BlobRoundTrip:
 class BlobDecryptLength:
     """a blob whose data is not of the length the descriptor announces is refused"""
     inputs = dict(key=TBytes(length=16), iv=TBytes(length=16), data=TBytes(maxlen=CHUNK), length=TInt(0, 2 ** 22))
+    timeout = QUERY_S
 
     def requires(data, length):
         return length != (len(data) // 16 + 1) * 16
@@ -1076,7 +953,7 @@ async def make_blob(key, iv, data, blob_num):
     base = workspace()
     try:
         loop = asyncio.get_event_loop()
-        info = await BlobFile.create_from_unencrypted(loop, base + '/blobs', key, iv, data, blob_num, 1500000000, True)
+        info = await asyncio.wait_for(BlobFile.create_from_unencrypted(loop, base + '/blobs', key, iv, data, blob_num, 1500000000, True), 10)
         stored = read_blob(base, info.blob_hash)
         return (info.blob_num, info.length, info.iv, info.blob_hash, info.is_mine), stored, count_blobs(base)
     finally:
@@ -1090,7 +967,7 @@ class BlobCreate:
     plaintext, has the announced length (at most 2 MiB) and the SHA-384 of the stored bytes IS the name"""
     inputs = dict(key=TBytes(length=16), iv=TBytes(length=16), data=TBytes(maxlen=CHUNK), blob_num=TInt(0, 2 ** 31))
     note = "plaintext lengths 1, 15, 16, 17, 4096, CHUNK-16, CHUNK-15, CHUNK"
-    timeout = 6
+    timeout = QUERY_S
     run = make_blob
 
     def ensures_stored_bytes_decrypt_to_plaintext(key, iv, data, result):
@@ -1117,27 +994,19 @@ class BlobCreate:
 # 3. suggested file name
 # =====================================================================================================
 
-def clean_name(s):
-    """no path separator ('/' or '\\'), no NUL, no control character (below U+0020)"""
-    ok = True
-    for ch in s:
-        ok = ok and ch != '/' and ch != '\\' and ord(ch) >= 32
-    return ok
-
-
 @proof("C02", "sanitize_file_name")
 class Sanitize:
     """for EVERY string offered as a name (any length, any code points) the suggested name is free of path separators,
     NUL and control characters, and is not empty"""
     inputs = dict(name=TStr())
+    timeout = QUERY_S
     note = "names built from separators, control characters, dots, blanks, reserved DOS names, unicode"
 
     def run(name):
-        use_contract_models()
         return sanitize_file_name(name)
 
     def ensures_no_separator_nul_or_control(result):
-        return matches(result, r'[^/\\\x00-\x1f]*')
+        return matches(result, CLEAN)
 
     def samples():
         import itertools
@@ -1195,18 +1064,21 @@ def spec_sd_content(name, key_hex, suggested, stream_hash, blobs):
 async def publish(name, key, ivs, parts):
     base = workspace()
     try:
-        use_contract_models()
+        use_sanitize_contract()
         data = b''
         for p in parts:
             data = data + p
         path = put_file(base, name, data)
+        chunks = []
+        async for chunk in file_reader(path):          # the chunking on its own (create_stream below reads the file again)
+            chunks.append(chunk)
         loop = asyncio.get_event_loop()
-        desc = await StreamDescriptor.create_stream(loop, base + '/blobs', path, key=key, iv_generator=iter(ivs))
+        desc = await asyncio.wait_for(StreamDescriptor.create_stream(loop, base + '/blobs', path, key=key, iv_generator=iter(ivs)), 20)
         blobs = [(b.blob_num, b.length, b.iv, b.blob_hash) for b in desc.blobs]
         stored = [read_blob(base, b.blob_hash) for b in desc.blobs[:-1]]
         sd_bytes = read_blob(base, desc.sd_hash)
         return dict(data=data, name=desc.stream_name, key=desc.key, suggested=desc.suggested_file_name, stream_hash=desc.stream_hash,
-                    sd_hash=desc.sd_hash, blobs=blobs, stored=stored, sd_bytes=sd_bytes, files=count_blobs(base))
+                    sd_hash=desc.sd_hash, blobs=blobs, stored=stored, sd_bytes=sd_bytes, files=count_blobs(base), chunks=chunks)
     finally:
         cleanup(base)
 
@@ -1223,6 +1095,15 @@ def make_publish_proof(k):
 
     async def run(**kw):
         return await publish(kw['name'], kw['key'], kw['ivs'], [kw[n] for n in part_names])
+
+    def ensures_file_reader_chunks_reassemble(result):
+        return b''.join(result['chunks']) == result['data']
+
+    def ensures_file_reader_chunk_count_and_sizes(result):
+        ok = len(result['chunks']) == k
+        for c in result['chunks']:
+            ok = ok and 1 <= len(c) <= CHUNK
+        return ok
 
     def ensures_decrypting_in_descriptor_order_gives_the_file(result):
         key = binascii.unhexlify(result['key'])
@@ -1264,7 +1145,7 @@ def make_publish_proof(k):
         return result['name'] == name
 
     def ensures_suggested_name_clean(result):
-        return matches(result['suggested'], r'[^/\\\x00-\x1f]*')
+        return matches(result['suggested'], CLEAN)
 
     def ensures_nothing_else_written(result):
         return result['files'] == k + 1
@@ -1273,7 +1154,7 @@ def make_publish_proof(k):
     run.__signature__ = inspect.Signature([inspect.Parameter(n, inspect.Parameter.POSITIONAL_OR_KEYWORD) for n in types])
 
     def samples():
-        for tail in (1, 15, 16, 4096, CHUNK - 1, CHUNK):
+        for tail in (1, 2, 15, 16, 4096, CHUNK - 1, CHUNK):
             for name in ('f.bin', 'with space.tar.gz', 'c:\\x<y>.mp4\n', '.hidden', 'CON'):
                 d = dict(name=name, key=bytes(range(16)), ivs=[bytes([j + 1]) * 16 for j in range(k + 1)])
                 for i in range(k - 1):
@@ -1281,12 +1162,14 @@ def make_publish_proof(k):
                 d["tail"] = (bytes(range(253)) * (tail // 253 + 1))[:tail]
                 yield d
 
-    body = dict(inputs=types, requires=staticmethod(requires), run=staticmethod(run), samples=staticmethod(samples), timeout=6,
+    body = dict(inputs=types, requires=staticmethod(requires), run=staticmethod(run), samples=staticmethod(samples), timeout=QUERY_S,
                 note=f"{k} data blob(s): last chunk of 1, 15, 16, 4096, CHUNK-1, CHUNK bytes x 5 file names",
                 __doc__=f"StreamDescriptor.create_stream on every file of {k} chunk(s) ({(k - 1)}*(MAX_BLOB_SIZE-1)+1 .. "
-                        f"{k}*(MAX_BLOB_SIZE-1) bytes), every key, IV sequence and file name: all clauses of the statement about a "
-                        f"published stream")
-    for f in (ensures_decrypting_in_descriptor_order_gives_the_file, ensures_descriptor_records_key_and_ivs,
+                        f"{k}*(MAX_BLOB_SIZE-1) bytes), every key, IV sequence and file name: file_reader yields exactly {k} chunk(s) of "
+                        f"1..MAX_BLOB_SIZE-1 bytes whose concatenation is the file, and all clauses of the statement about a "
+                        f"published stream hold")
+    for f in (ensures_file_reader_chunks_reassemble, ensures_file_reader_chunk_count_and_sizes,
+              ensures_decrypting_in_descriptor_order_gives_the_file, ensures_descriptor_records_key_and_ivs,
               ensures_data_blobs_bounded_and_named_by_sha384, ensures_numbering_and_terminator, ensures_stream_hash_commits_to_content,
               ensures_sd_hash_is_sha384_of_descriptor_blob, ensures_descriptor_blob_says_exactly_this, ensures_stream_name_is_file_name,
               ensures_suggested_name_clean,
@@ -1303,6 +1186,7 @@ for _k in (1, 2, 3):
 class LemmaValidBlobHash:
     """lemma used modularly by the blob proofs: the hex form of any 48-byte digest passes is_valid_blobhash"""
     inputs = dict(d=TBytes(length=48))
+    timeout = QUERY_S
 
     def run(d):
         return True if _blob_file.is_valid_blobhash(binascii.hexlify(d).decode()) else False
@@ -1313,3 +1197,693 @@ class LemmaValidBlobHash:
     def samples():
         for d in (bytes(48), bytes(range(48)), b'\xff' * 48, bytes(range(200, 248))):
             yield dict(d=d)
+
+
+# =====================================================================================================
+# 6. commitments of an arbitrary descriptor object
+# =====================================================================================================
+
+def blob_tuples(fields, n):
+    """[(num, length, iv, hash)] of n data blobs and the terminator from flat proof inputs"""
+    out = []
+    for i in range(n):
+        out.append((fields[f"num{i}"], fields[f"len{i}"], fields[f"iv{i}"], fields[f"hash{i}"]))
+    out.append((fields["tnum"], 0, fields["tiv"], None))
+    return out
+
+
+def descriptor_of(name, key, suggested, blobs, stream_hash=None):
+    infos = [BlobInfo(b[0], b[1], b[2], 1500000000, b[3]) for b in blobs]
+    return StreamDescriptor(None, '/nowhere', name, key, suggested, infos, stream_hash)
+
+
+def make_commitment_proof(n):
+    types = dict(name=TStr(), key=TStr(), suggested=TStr())
+    for i in range(n):
+        types.update({f"num{i}": TInt(), f"len{i}": TInt(1, 2 * 2 ** 20), f"iv{i}": TStr(), f"hash{i}": TStr()})
+    types.update(tnum=TInt(), tiv=TStr())
+
+    def requires(**kw):
+        ok = True
+        for i in range(n):
+            ok = ok and len(kw[f"hash{i}"]) > 0
+        return ok
+
+    def run(**kw):
+        blobs = blob_tuples(kw, n)
+        d = descriptor_of(kw['name'], kw['key'], kw['suggested'], blobs)
+        raw = d.as_json()
+        return blobs, d.stream_hash, d.get_stream_hash(), d.calculate_sd_hash(), raw
+
+    def ensures_stream_hash_is_the_stated_commitment(name, key, suggested, result):
+        expected = spec_stream_hash(name, key, suggested, result[0])
+        return result[1] == expected and result[2] == expected
+
+    def ensures_sd_hash_is_sha384_of_the_json(result):
+        return result[3] == hashlib.sha384(result[4]).hexdigest()
+
+    def ensures_json_says_exactly_the_content(name, key, suggested, result):
+        return json.loads(result[4]) == spec_sd_content(name, key, suggested, result[1], result[0])
+
+    import inspect
+    params = [inspect.Parameter(x, inspect.Parameter.POSITIONAL_OR_KEYWORD) for x in types]
+    run.__signature__ = inspect.Signature(params)
+    requires.__signature__ = inspect.Signature(params)
+
+    def samples():
+        for name, key, sugg in (('a', 'b', 'c'), ('', '', ''), ('näme.mp4', '00' * 16, 'näme.mp4'), ('ab', 'c', 'd'), ('a', 'bc', 'd')):
+            for big in (0, 1):
+                d = dict(name=name, key=key, suggested=sugg, tnum=n if not big else 10 ** 12, tiv='ab' * 16)
+                for i in range(n):
+                    d.update({f"num{i}": i if not big else -i - 7, f"len{i}": 2 * 2 ** 20 - i if big else 16 * (i + 1),
+                              f"iv{i}": ('%02x' % i) * 16, f"hash{i}": ('%02x' % (i + 1)) * 48})
+                yield d
+
+    body = dict(inputs=types, requires=staticmethod(requires), run=staticmethod(run), samples=staticmethod(samples), timeout=QUERY_S,
+                ensures_stream_hash_is_the_stated_commitment=staticmethod(ensures_stream_hash_is_the_stated_commitment),
+                ensures_sd_hash_is_sha384_of_the_json=staticmethod(ensures_sd_hash_is_sha384_of_the_json),
+                ensures_json_says_exactly_the_content=staticmethod(ensures_json_says_exactly_the_content),
+                note="5 name/key/suggested-name triples x small and extreme numbers/lengths",
+                __doc__=f"any descriptor object with {n} data blob(s) and a terminator, arbitrary strings and integers in every "
+                        f"field: get_stream_hash / calculate_stream_hash / get_blob_hashsum / BlobInfo.as_dict compute the stated "
+                        f"SHA-384 commitment, calculate_sd_hash is the SHA-384 of as_json(), and as_json() says exactly the content")
+    proof("C02", f"commitments[{n}]")(type('Commitments', (), body))
+
+
+for _n in (0, 1, 2):
+    make_commitment_proof(_n)
+
+
+# =====================================================================================================
+# 7. loading a descriptor blob
+# =====================================================================================================
+
+from lbry.error import InvalidStreamDescriptorError      # noqa: E402
+
+
+class SdReader:
+    def __init__(self, data):
+        self.data = data
+
+    def read(self):
+        return self.data
+
+
+class SdReaderContext:
+    def __init__(self, data):
+        self.data = data
+
+    def __enter__(self):
+        return SdReader(self.data)
+
+    def __exit__(self, a, b, c):
+        return False
+
+
+class SdBlob:
+    """a verified descriptor blob as _from_stream_descriptor_blob sees it (duck-typed: blob_hash, reader_context, delete)"""
+
+    def __init__(self, blob_hash, data):
+        self.blob_hash = blob_hash
+        self.data = data
+        self.deleted = False
+
+    def reader_context(self):
+        return SdReaderContext(self.data)
+
+    def delete(self):
+        self.deleted = True
+
+
+def sd_json(name_hex, key, suggested_hex, stream_hash, blob_dicts):
+    return {'stream_type': 'lbryfile', 'stream_name': name_hex, 'key': key, 'suggested_file_name': suggested_hex,
+            'stream_hash': stream_hash, 'blobs': blob_dicts}
+
+
+def load(document, sd_hash):
+    return load_raw(json.dumps(document).encode(), sd_hash)
+
+
+def load_raw(raw, sd_hash):
+    blob = SdBlob(sd_hash, raw)
+    d = StreamDescriptor._from_stream_descriptor_blob(None, '/nowhere', blob)
+    return (d.stream_name, d.key, d.suggested_file_name, d.stream_hash, d.sd_hash,
+            [(b.blob_num, b.length, b.iv, b.blob_hash) for b in d.blobs])
+
+
+REFUSED = {InvalidStreamDescriptorError: True, KeyError: True, TypeError: True, IndexError: True, ValueError: True,
+           AttributeError: True}     # binascii.Error and UnicodeDecodeError are ValueErrors
+
+
+def make_load_proof(n):
+    types = dict(name_hex=TStr(), key=TStr(), suggested_hex=TStr(), stream_hash=TStr(), sd_hash=TStr())
+    for i in range(n + 1):
+        types.update({f"num{i}": TInt(), f"len{i}": TInt(), f"iv{i}": TStr(), f"hash{i}": TStr(), f"has{i}": TBool()})
+
+    def document(kw):
+        blobs = []
+        for i in range(n + 1):
+            b = {'length': kw[f"len{i}"], 'blob_num': kw[f"num{i}"], 'iv': kw[f"iv{i}"]}
+            if kw[f"has{i}"]:
+                b['blob_hash'] = kw[f"hash{i}"]
+            blobs.append(b)
+        return sd_json(kw['name_hex'], kw['key'], kw['suggested_hex'], kw['stream_hash'], blobs)
+
+    def run(**kw):
+        return load(document(kw), kw['sd_hash'])
+
+    def ensures_terminator_and_data_blobs(result, **kw):
+        ok = kw[f"len{n}"] == 0 and not kw[f"has{n}"]
+        for i in range(n):
+            ok = ok and kw[f"len{i}"] != 0
+        return ok
+
+    def ensures_numbered_in_order(result, **kw):
+        ok = True
+        for i in range(n + 1):
+            ok = ok and kw[f"num{i}"] == i
+        return ok
+
+    def ensures_stream_hash_matches_content(result, **kw):
+        blobs = [(kw[f"num{i}"], kw[f"len{i}"], kw[f"iv{i}"], kw[f"hash{i}"] if kw[f"has{i}"] else None) for i in range(n + 1)]
+        name = binascii.unhexlify(kw['name_hex']).decode()
+        suggested = binascii.unhexlify(kw['suggested_hex']).decode()
+        return kw['stream_hash'] == spec_stream_hash(name, kw['key'], suggested, blobs)
+
+    def ensures_descriptor_is_what_the_blob_says(result, **kw):
+        blobs = [(kw[f"num{i}"], kw[f"len{i}"], kw[f"iv{i}"], kw[f"hash{i}"] if kw[f"has{i}"] else None) for i in range(n + 1)]
+        return (result[0] == binascii.unhexlify(kw['name_hex']).decode() and result[1] == kw['key']
+                and result[2] == binascii.unhexlify(kw['suggested_hex']).decode() and result[3] == kw['stream_hash']
+                and result[4] == kw['sd_hash'] and result[5] == blobs)
+
+    import inspect
+    params = [inspect.Parameter(x, inspect.Parameter.POSITIONAL_OR_KEYWORD) for x in types]
+    run.__signature__ = inspect.Signature(params)
+    ens = [ensures_terminator_and_data_blobs, ensures_numbered_in_order, ensures_stream_hash_matches_content,
+           ensures_descriptor_is_what_the_blob_says]
+    for f in ens:
+        f.__signature__ = inspect.Signature([inspect.Parameter('result', inspect.Parameter.POSITIONAL_OR_KEYWORD)] + params)
+
+    def samples():
+        import itertools
+        name, key, sugg = 'video.mp4', '00' * 16, 'video.mp4'
+        good = [(i, 2 * 2 ** 20, ('%02x' % i) * 16, ('%02x' % (i + 1)) * 48) for i in range(n)] + [(n, 0, 'ff' * 16, None)]
+        sh = spec_stream_hash(name, key, sugg, good)
+
+        def case(blobs, stream_hash=sh, name_hex=name.encode().hex(), sugg_hex=sugg.encode().hex(), k=key):
+            d = dict(name_hex=name_hex, key=k, suggested_hex=sugg_hex, stream_hash=stream_hash, sd_hash='ab' * 48)
+            for i, b in enumerate(blobs):
+                d.update({f"num{i}": b[0], f"len{i}": b[1], f"iv{i}": b[2], f"hash{i}": b[3] or '', f"has{i}": b[3] is not None})
+            return d
+        yield case(good)
+        yield case(good, stream_hash='')
+        yield case(good, stream_hash='00' * 48)
+        yield case(good, name_hex='zz')
+        yield case(good, name_hex='ff')
+        yield case(good, k=key[:-1] + '1')
+        yield case(good, sugg_hex='61')
+        for i in range(n + 1):
+            for j, values in enumerate(((-1, 0, 1, i + 1, n + 1), (0, 1, 16, -1), ('', '00' * 16), (None, '', 'cd' * 48))):
+                for v in values:
+                    b = list(good[i])
+                    b[j] = v
+                    yield case(good[:i] + [tuple(b)] + good[i + 1:])
+        if n == 2:
+            yield case([good[1], good[0], good[2]])
+            yield case([good[0], good[2], good[1]])
+        # structurally inconsistent documents whose stream hash was RE-computed over the inconsistent content
+        def rehashed(blobs):
+            defined = all(b[3] is not None or b[1] == 0 for b in blobs)       # a non-empty entry without hash has no blob sum
+            return case(blobs, stream_hash=spec_stream_hash(name, key, sugg, blobs) if defined else 'dd' * 48)
+        yield rehashed([(b[0] + 1, b[1], b[2], b[3]) for b in good])                 # numbered from 1
+        yield rehashed([(0, b[1], b[2], b[3]) for b in good])                         # all numbered 0
+        yield rehashed([(n - b[0], b[1], b[2], b[3]) for b in good])                  # numbered backwards
+        yield rehashed(good[:-1] + [(n, 0, 'ff' * 16, 'ee' * 48)])                    # terminator with a hash
+        yield rehashed(good[:-1] + [(n, 16, 'ff' * 16, None)])                        # last entry not empty, no hash
+        yield rehashed(good[:-1] + [(n, 16, 'ff' * 16, 'ee' * 48)])                   # no terminator at all
+        if n >= 1:
+            yield rehashed([(0, 0, good[0][2], good[0][3])] + good[1:])               # zero-length data blob
+            yield rehashed([(0, 0, good[0][2], None)] + good[1:])                     # a terminator in the middle
+            yield rehashed([good[0][:3] + ('',)] + good[1:])                          # data blob with an empty hash
+
+    body = dict(inputs=types, run=staticmethod(run), samples=staticmethod(samples), raises=REFUSED, timeout=QUERY_S,
+                note="a valid descriptor and every single-field change of it to a handful of values (numbers -1,0,1,i+1; lengths "
+                     "0,1,16,-1; empty/other IV; missing/empty/other hash; empty/other stream hash; bad hex names; swapped blobs)",
+                __doc__=f"_from_stream_descriptor_blob on EVERY JSON document of the descriptor shape with {n + 1} blob entries "
+                        f"(arbitrary strings and integers in every field, blob_hash key present or absent per entry): if a "
+                        f"descriptor is returned then the last entry is a zero-length terminator without hash, every other entry "
+                        f"has a non-zero length, numbering is 0..{n} in order, the stream_hash field IS the stated commitment over "
+                        f"the other fields, and the returned object says what the blob says; every other outcome is a refusal")
+    for f in ens:
+        body[f.__name__] = staticmethod(f)
+    proof("C02", f"load[{n + 1}]")(type('Load', (), body))
+
+
+for _n in (0, 1, 2):
+    make_load_proof(_n)
+
+
+# ---- tampering with one hash-committed field of a valid descriptor ------------------------------------------------
+
+def spec_blob_preimage(b):
+    named = b[3].encode() if b[1] != 0 else b''
+    return named + str(b[0]).encode() + b[2].encode() + str(b[1]).encode()
+
+
+def spec_inner_preimage(blobs):
+    sums = b''
+    for b in blobs:
+        sums = sums + sha384(spec_blob_preimage(b))
+    return sums
+
+
+def spec_outer_preimage(name, key_hex, suggested, blobs):
+    return binascii.hexlify(name.encode()) + key_hex.encode() + binascii.hexlify(suggested.encode()) + sha384(spec_inner_preimage(blobs))
+
+
+def collision(x, y):
+    """two different byte strings with the same SHA-384"""
+    return x != y and sha384(x) == sha384(y)
+
+
+def exhibits_collision(d1, d2):
+    """descriptors (name, key, suggested, blobs): a SHA-384 collision between corresponding hash inputs of the two"""
+    found = collision(spec_outer_preimage(d1[0], d1[1], d1[2], d1[3]), spec_outer_preimage(d2[0], d2[1], d2[2], d2[3])) \
+        or collision(spec_inner_preimage(d1[3]), spec_inner_preimage(d2[3]))
+    for b1, b2 in zip(d1[3], d2[3]):
+        found = found or collision(spec_blob_preimage(b1), spec_blob_preimage(b2))
+    return found
+
+
+def replaced(blobs, i, j, value):
+    b = blobs[i]
+    nb = (value if j == 0 else b[0], value if j == 1 else b[1], value if j == 2 else b[2], value if j == 3 else b[3])
+    return blobs[:i] + [nb] + blobs[i + 1:]
+
+
+def tampered(kind, d, new_s, new_i):
+    """the descriptor after ONE change; kind = (what, blob index)"""
+    name, key, suggested, blobs = d
+    what, i = kind
+    if what == 'name':
+        return (new_s, key, suggested, blobs)
+    if what == 'suggested':
+        return (name, key, new_s, blobs)
+    if what == 'key':
+        return (name, new_s, suggested, blobs)
+    if what == 'num':
+        return (name, key, suggested, replaced(blobs, i, 0, new_i))
+    if what == 'length':
+        return (name, key, suggested, replaced(blobs, i, 1, new_i))
+    if what == 'iv':
+        return (name, key, suggested, replaced(blobs, i, 2, new_s))
+    if what == 'hash':
+        return (name, key, suggested, replaced(blobs, i, 3, new_s))
+    if what == 'swap-entries':
+        return (name, key, suggested, blobs[:i] + [blobs[i + 1], blobs[i]] + blobs[i + 2:])
+    if what == 'drop-terminator':
+        return (name, key, suggested, blobs[:-1])
+    if what == 'second-terminator':
+        return (name, key, suggested, blobs + [(len(blobs), 0, new_s, None)])
+    return None
+
+
+def differs(kind, d, new_s, new_i):
+    """the change is a change"""
+    name, key, suggested, blobs = d
+    what, i = kind
+    if what == 'name':
+        return new_s != name
+    if what == 'suggested':
+        return new_s != suggested
+    if what == 'key':
+        return new_s != key
+    if what == 'num':
+        return new_i != blobs[i][0]
+    if what == 'length':
+        return new_i != blobs[i][1]
+    if what == 'iv':
+        return new_s != blobs[i][2]
+    if what == 'hash':
+        return new_s != blobs[i][3]
+    return True
+
+
+def document_of(d, stream_hash):
+    name, key, suggested, blobs = d
+    entries = []
+    for b in blobs:
+        e = {'length': b[1], 'blob_num': b[0], 'iv': b[2]}
+        if b[3] is not None:
+            e['blob_hash'] = b[3]
+        entries.append(e)
+    return sd_json(binascii.hexlify(name.encode()).decode(), key, binascii.hexlify(suggested.encode()).decode(), stream_hash, entries)
+
+
+def tamper_kinds(n):
+    kinds = [('name', 0), ('suggested', 0), ('key', 0)]
+    for i in range(n + 1):
+        kinds += [('num', i), ('length', i), ('iv', i)]
+        kinds += [('hash', i)]
+    for i in range(n):
+        kinds.append(('swap-entries', i))
+    kinds += [('drop-terminator', 0), ('second-terminator', 0)]
+    return kinds
+
+
+def make_tamper_proof(n):
+    types = dict(kind=TOneOf(*[TConst(k) for k in tamper_kinds(n)]), new_s=TStr(), new_i=TInt(),
+                 name=TStr(), key=TStr(), suggested=TStr())
+    for i in range(n):
+        types.update({f"len{i}": TInt(1, 2 * 2 ** 20), f"iv{i}": TStr(), f"hash{i}": TStr()})
+    types.update(tiv=TStr())
+
+    def original(kw):
+        blobs = [(i, kw[f"len{i}"], kw[f"iv{i}"], kw[f"hash{i}"]) for i in range(n)] + [(n, 0, kw['tiv'], None)]
+        return (kw['name'], kw['key'], kw['suggested'], blobs)
+
+    def requires(**kw):
+        ok = True
+        for i in range(n):
+            ok = ok and len(kw[f"hash{i}"]) > 0
+        return ok and differs(kw['kind'], original(kw), kw['new_s'], kw['new_i'])
+
+    def run(**kw):
+        d = original(kw)
+        committed = spec_stream_hash(d[0], d[1], d[2], d[3])
+        d2 = tampered(kw['kind'], d, kw['new_s'], kw['new_i'])
+        return load(document_of(d2, committed), 'ab' * 48)
+
+    def ensures_accepted_only_with_a_sha384_collision(result, **kw):
+        d = original(kw)
+        return exhibits_collision(d, tampered(kw['kind'], d, kw['new_s'], kw['new_i']))
+
+    import inspect
+    params = [inspect.Parameter(x, inspect.Parameter.POSITIONAL_OR_KEYWORD) for x in types]
+    run.__signature__ = inspect.Signature(params)
+    requires.__signature__ = inspect.Signature(params)
+    ensures_accepted_only_with_a_sha384_collision.__signature__ = inspect.Signature(
+        [inspect.Parameter('result', inspect.Parameter.POSITIONAL_OR_KEYWORD)] + params)
+
+    def samples():
+        for kind in tamper_kinds(n):
+            for new_s in ('', 'x', 'video.mp4 ', '01' * 48, '00' * 16, 'AB' * 16):
+                for new_i in (-1, 0, 1, 2, 3, 17, 2 * 2 ** 20):
+                    d = dict(kind=kind, new_s=new_s, new_i=new_i, name='video.mp4', key='00' * 15 + '01', suggested='video.mp4',
+                             tiv='ab' * 16)
+                    for i in range(n):
+                        d.update({f"len{i}": 16 * (i + 1), f"iv{i}": ('%02x' % i) * 16, f"hash{i}": ('%02x' % (i + 1)) * 48})
+                    yield d
+
+    body = dict(inputs=types, requires=staticmethod(requires), run=staticmethod(run), samples=staticmethod(samples), raises=REFUSED,
+                timeout=QUERY_S, ensures_accepted_only_with_a_sha384_collision=staticmethod(ensures_accepted_only_with_a_sha384_collision),
+                note="every kind of change x 6 replacement strings x 7 replacement integers on one valid descriptor",
+                __doc__=f"a valid descriptor with {n} data blob(s) (any strings, lengths) whose stream_hash field is the stated "
+                        f"commitment, after ONE change (stream name, suggested name, key; number, length, IV or hash of any entry; "
+                        f"two entries swapped; terminator dropped or doubled) and the stream_hash "
+                        f"field left as it was: _from_stream_descriptor_blob refuses it, or else the two descriptors exhibit a "
+                        f"SHA-384 collision (different hash inputs, same digest)")
+    proof("C02", f"tamper[{n}]")(type('Tamper', (), body))
+
+
+for _n in (1, 2):
+    make_tamper_proof(_n)
+
+
+# ---- structure checks when the stream hash HAS been recomputed over the (possibly inconsistent) content -----------------------
+
+def make_rehashed_proof(n):
+    types = dict(name=TStr(), key=TStr(), suggested=TStr())
+    for i in range(n + 1):
+        types.update({f"num{i}": TInt(), f"len{i}": TInt(), f"iv{i}": TStr(), f"hash{i}": TStr(), f"has{i}": TBool()})
+
+    def entries(kw):
+        return [(kw[f"num{i}"], kw[f"len{i}"], kw[f"iv{i}"], kw[f"hash{i}"] if kw[f"has{i}"] else None) for i in range(n + 1)]
+
+    def requires(**kw):
+        ok = True
+        for i in range(n + 1):
+            ok = ok and (kw[f"has{i}"] or kw[f"len{i}"] == 0)     # the commitment is defined (a non-empty entry names a blob)
+        return ok
+
+    def run(**kw):
+        blobs = entries(kw)
+        d = (kw['name'], kw['key'], kw['suggested'], blobs)
+        return load(document_of(d, spec_stream_hash(kw['name'], kw['key'], kw['suggested'], blobs)), 'ab' * 48)
+
+    def ensures_terminator_and_data_blobs(result, **kw):
+        ok = kw[f"len{n}"] == 0 and not kw[f"has{n}"]
+        for i in range(n):
+            ok = ok and kw[f"len{i}"] != 0
+        return ok
+
+    def ensures_numbered_in_order(result, **kw):
+        ok = True
+        for i in range(n + 1):
+            ok = ok and kw[f"num{i}"] == i
+        return ok
+
+    def refusal_is_justified(**kw):
+        """a document is refused only if its structure is inconsistent (the hash is right by construction)"""
+        ok = kw[f"len{n}"] == 0 and not kw[f"has{n}"]
+        for i in range(n):
+            ok = ok and kw[f"len{i}"] != 0
+        for i in range(n + 1):
+            ok = ok and kw[f"num{i}"] == i
+        return not ok
+
+    def names_no_blob(**kw):
+        """a non-empty entry whose blob_hash is the empty string (KeyError: such an entry has no blob sum)"""
+        found = False
+        for i in range(n + 1):
+            found = found or (kw[f"len{i}"] != 0 and kw[f"hash{i}"] == '')
+        return found
+
+    import inspect
+    params = [inspect.Parameter(x, inspect.Parameter.POSITIONAL_OR_KEYWORD) for x in types]
+    run.__signature__ = inspect.Signature(params)
+    requires.__signature__ = inspect.Signature(params)
+    refusal_is_justified.__signature__ = inspect.Signature(params)
+    names_no_blob.__signature__ = inspect.Signature(params)
+    for f in (ensures_terminator_and_data_blobs, ensures_numbered_in_order):
+        f.__signature__ = inspect.Signature([inspect.Parameter('result', inspect.Parameter.POSITIONAL_OR_KEYWORD)] + params)
+
+    def samples():
+        import itertools
+        for nums in itertools.product((0, 1, 2), repeat=n + 1):
+            for lens in itertools.product((0, 16), repeat=n + 1):
+                for has in itertools.product((False, True), repeat=n + 1):
+                    d = dict(name='n', key='00' * 16, suggested='n')
+                    for i in range(n + 1):
+                        d.update({f"num{i}": nums[i], f"len{i}": lens[i], f"iv{i}": '%02x' % i * 16, f"hash{i}": '%02x' % (i + 1) * 48,
+                                  f"has{i}": has[i]})
+                    yield d
+
+    body = dict(inputs=types, requires=staticmethod(requires), run=staticmethod(run), samples=staticmethod(samples),
+                raises={InvalidStreamDescriptorError: refusal_is_justified, KeyError: names_no_blob},
+                timeout=QUERY_S, ensures_terminator_and_data_blobs=staticmethod(ensures_terminator_and_data_blobs),
+                ensures_numbered_in_order=staticmethod(ensures_numbered_in_order),
+                note="every combination of numbers 0..2, lengths 0/16 and hash present/absent over the entries",
+                __doc__=f"documents with {n + 1} entries whose stream_hash field was re-computed over whatever the entries say (what "
+                        f"someone who edits a descriptor would do): only the structural checks can refuse them — a returned "
+                        f"descriptor has a zero-length hash-less terminator, non-empty data blobs and numbering 0..{n}; and the "
+                        f"only refusals are InvalidStreamDescriptorError, raised only when that structure is violated, and "
+                        f"KeyError for a non-empty entry with an empty blob_hash (a consistent document is accepted)")
+    proof("C02", f"load.rehashed[{n + 1}]")(type('LoadRehashed', (), body))
+
+
+for _n in (0, 1, 2):
+    make_rehashed_proof(_n)
+
+
+@proof("C02", "load.falsy-stream-hash")
+class LoadFalsyStreamHash:
+    """an otherwise consistent document (one data blob and a terminator, any strings / length) whose stream_hash field is
+    empty, null, 0 or false is never accepted (the commitment is a 96-digit hex string)"""
+    inputs = dict(stream_hash=TOneOf(TConst(''), TNone(), TConst(0), TConst(False)), name=TStr(), key=TStr(), suggested=TStr(),
+                  len0=TInt(1, 2 * 2 ** 20), iv0=TStr(), hash0=TStr(), tiv=TStr())
+    timeout = QUERY_S
+    note = "the four falsy values on one consistent document"
+
+    def requires(hash0):
+        return len(hash0) > 0
+
+    def run(stream_hash, name, key, suggested, len0, iv0, hash0, tiv):
+        return load(document_of((name, key, suggested, [(0, len0, iv0, hash0), (1, 0, tiv, None)]), stream_hash), 'ab' * 48)
+
+    def ensures_never_accepted(result):
+        return False
+
+    raises = REFUSED
+
+    def samples():
+        for sh in ('', None, 0, False):
+            yield dict(stream_hash=sh, name='a.mp4', key='00' * 16, suggested='a.mp4', len0=32, iv0='01' * 16, hash0='aa' * 48,
+                       tiv='02' * 16)
+
+
+# ---- BOUNDED stand-in: arbitrary bytes offered as a descriptor blob -------------------------------------------------------
+
+def consistent(doc):
+    """the statement's notion of a consistent descriptor document (terminator, non-empty data blobs, numbering, stream hash)"""
+    blobs = doc['blobs']
+    ok = blobs[-1]['length'] == 0 and 'blob_hash' not in blobs[-1]
+    for i, b in enumerate(blobs):
+        ok = ok and b['blob_num'] == i
+    for b in blobs[:-1]:
+        ok = ok and b['length'] != 0
+    entries = [(b['blob_num'], b['length'], b['iv'], b.get('blob_hash')) for b in blobs]
+    return ok and doc['stream_hash'] == spec_stream_hash(binascii.unhexlify(doc['stream_name']).decode(), doc['key'],
+                                                         binascii.unhexlify(doc['suggested_file_name']).decode(), entries)
+
+
+def _raw_documents():
+    name, key = 'a b.mp4', '0f' * 16
+    blobs = [(0, 2 * 2 ** 20, '01' * 16, 'aa' * 48), (1, 32, '02' * 16, 'bb' * 48), (2, 0, '03' * 16, None)]
+    good = document_of((name, key, name, blobs), spec_stream_hash(name, key, name, blobs))
+    text = json.dumps(good, sort_keys=True)
+    yield text.encode()
+    yield json.dumps(good).encode()
+    yield json.dumps(good, indent=2).encode()
+    yield (' ' + text + '\n').encode()
+    # not JSON / not the shape
+    for raw in (b'', b' ', b'{', b'nul', b'null', b'[]', b'{}', b'1', b'"x"', b'\xff\xfe', text.encode()[:-1], text.encode()[1:],
+                text.encode() + b'}', text.encode('utf-16'), b'{"blobs": []}', b'{"blobs": {}}', b'{"blobs": [[]]}',
+                b'{"blobs": [{"length": 0}]}', b'{"blobs": [{"length": 0, "blob_num": 0, "iv": "00"}]}'):
+        yield raw
+    # one JSON value replaced by a value of another type or a near miss
+    import copy
+    odd = [None, True, False, 0, 1, -1, 0.0, 1.5, '', '0', 'zz', [], {}, [0], 'A' * 96]
+    for k in ('stream_name', 'key', 'suggested_file_name', 'stream_hash', 'blobs', 'stream_type'):
+        for v in odd:
+            d = copy.deepcopy(good)
+            d[k] = v
+            yield json.dumps(d).encode()
+        d = copy.deepcopy(good)
+        del d[k]
+        yield json.dumps(d).encode()
+    for i in range(3):
+        for k in ('length', 'blob_num', 'iv', 'blob_hash'):
+            for v in odd:
+                d = copy.deepcopy(good)
+                d['blobs'][i][k] = v
+                yield json.dumps(d).encode()
+            d = copy.deepcopy(good)
+            d['blobs'][i].pop(k, None)
+            yield json.dumps(d).encode()
+    for perm in ([1, 0, 2], [0, 2, 1], [2, 0, 1], [0, 1], [0, 2], [2], [0, 1, 2, 2], [0, 0, 1, 2], [0, 1, 1, 2]):
+        d = copy.deepcopy(good)
+        d['blobs'] = [copy.deepcopy(good['blobs'][j]) for j in perm]
+        yield json.dumps(d).encode()
+        for j, b in enumerate(d['blobs']):
+            b['blob_num'] = j          # renumbered after the permutation
+        yield json.dumps(d).encode()
+    # duplicate key: the later value wins in Python's json
+    yield text.replace('"stream_hash"', '"stream_hash": "", "stream_hash"', 1).encode()
+    yield text.replace('{"blob_hash"', '{"blob_hash": "cc", "blob_hash"', 1).encode()
+
+
+@proof("C02", "load.arbitrary-bytes")
+class LoadRaw:
+    """BOUNDED stand-in (run-time contract check only: json.loads on arbitrary text has no model).  Bytes offered as a
+    descriptor blob are refused (any exception) or, if a descriptor is returned, the document they decode to is
+    consistent in the statement's sense."""
+    bounded_only = True
+    note = "one valid 3-entry descriptor in 4 spellings + 19 non-JSON / wrong-shape texts + every field of the document and of " \
+           "each entry replaced by 15 values of other types / near misses or removed + 9 permutations/duplications of entries " \
+           "(with and without renumbering) + 2 duplicate-key texts"
+    inputs = dict(raw=TBytes())
+
+    def run(raw):
+        got = load_raw(raw, 'ab' * 48)
+        return got, json.loads(raw.decode())
+
+    def ensures_accepted_document_is_consistent(result):
+        return consistent(result[1])
+
+    raises = {Exception: True}
+
+    def samples():
+        for raw in _raw_documents():
+            yield dict(raw=raw)
+
+
+@proof("C02", "file_reader.more-chunks")
+class ManyChunks:
+    """BOUNDED stand-in for chunk counts above 3 (the deductive proofs unroll 1..3 chunks): publish and decrypt 4- and 5-chunk
+    files, sizes on both sides of the chunk boundary; also: the published descriptor blob, loaded back with
+    _from_stream_descriptor_blob, is accepted and gives the same descriptor"""
+    bounded_only = True
+    note = "file sizes 1, CHUNK, CHUNK+1, 3*CHUNK+1, 4*CHUNK-1, 4*CHUNK, 4*CHUNK+1, 4*(CHUNK+1), 5*CHUNK"
+    inputs = dict(size=TInt(1, 5 * CHUNK))
+
+    async def run(size):
+        data = (bytes(range(256)) * (size // 256 + 1))[:size]
+        k = (size + CHUNK - 1) // CHUNK
+        r = await publish('big.bin', bytes(range(16)), [bytes([j + 1]) * 16 for j in range(k + 1)], [data])
+        key = binascii.unhexlify(r['key'])
+        plain = b''
+        for b, stored in zip(r['blobs'][:-1], r['stored']):
+            plain = plain + spec_decrypt(stored, key, binascii.unhexlify(b[2]))
+        got = load_raw(r['sd_bytes'], r['sd_hash'])
+        same = got == (r['name'], r['key'], r['suggested'], r['stream_hash'], r['sd_hash'], r['blobs'])
+        return plain == data, [len(s) for s in r['stored']], [b[0] for b in r['blobs']], k, same
+
+    def ensures_roundtrip(result):
+        return result[0]
+
+    def ensures_published_descriptor_loads_back(result):
+        return result[4]
+
+    def ensures_blob_sizes_and_numbers(result):
+        return all(0 < n <= 2 * 2 ** 20 for n in result[1]) and len(result[1]) == result[3] and result[2] == list(range(result[3] + 1))
+
+    def samples():
+        for size in (1, CHUNK, CHUNK + 1, 3 * CHUNK + 1, 4 * CHUNK - 1, 4 * CHUNK, 4 * CHUNK + 1, 4 * (CHUNK + 1), 5 * CHUNK):
+            yield dict(size=size)
+
+
+TRUSTED = [
+    "file system (os.stat, os.path.isdir/isfile, open/read/seek/write in binary mode): a map from path strings to byte strings; "
+    "a file written and closed is read back unchanged; st_size is the length; read(n) at offset o returns content[o:o+n]; two "
+    "paths that are not literally the same string name different files",
+    "os.path.join / basename / splitext: POSIX definitions (join: absolute second component wins, else one '/' between; "
+    "basename: what follows the last '/'; splitext: root+ext == path, ext is empty or the last '.' of the last component with "
+    "what follows, not split off when only dots precede it)",
+    "asyncio: the engine's cooperative model (pyvc.pymodels: FIFO ready queue, callbacks of a finished future run before a "
+    "coroutine waiting for their effect resumes, run_in_executor completes); time-outs never fire; time.time() is a positive number",
+    "cryptography: Cipher(AES(key), CBC(iv)).encryptor()/decryptor() and PKCS7(128).padder()/unpadder() are modelled through the "
+    "concatenation update(...)+finalize() only: AES-CBC is length preserving on whole blocks and decrypt(key, iv, encrypt(key, iv, "
+    "x)) == x (ValueError on key sizes other than 16/24/32, IV size other than 16, partial blocks); len(pad(x)) == "
+    "(len(x)//16+1)*16, unpad(pad(x)) == x, unpad raises ValueError on anything that is not a padded string",
+    "hashlib.sha384 is a function of the bytes fed (uninterpreted, 48 bytes); hexlify/unhexlify are inverse, two lowercase hex "
+    "digits per byte; str.encode()/bytes.decode() (utf-8) are inverse on valid input",
+    "json: dumps (default separators, sort_keys honoured) is a deterministic function of the value, and loads(dumps(v)) == v for "
+    "values built from str, int, None, list and dict with str keys; nothing else about the text is assumed",
+    "re.sub(P, '', s) for the real RE_ILLEGAL_FILENAME_CHARS: the result contains no character of the leading character-class "
+    "alternatives `[<>:\"/\\|?*]+` and `[\\x00-\\x1F]+` (classes read from the compiled pattern with CPython's own parser; argument: "
+    "left-to-right scan, the alternatives are tried in order at every position not yet consumed, none of them matches the "
+    "empty string, the replacement is empty) and is not longer than s",
+    "SHA-384 collision resistance is NOT assumed anywhere: the tamper proofs conclude 'refused or an explicit collision'",
+]
+NOT_DECIDED = [
+    "files of more than 3 chunks deductively (file_reader's loop and create_stream's loop are unrolled; 4 and 5 chunks only in "
+    "the bounded stand-in); empty files (outside the statement)",
+    "publishing when a blob of the same name already exists in the blob directory, in particular an IV sequence that repeats an "
+    "IV for two equal chunks: create_stream then raises OSError('File already exists') — observed natively, nothing wrong is "
+    "written; the environment model assumes distinct blobs have distinct names",
+    "bytes offered as a descriptor blob that are not json.dumps of a document of the descriptor shape (not JSON, other JSON "
+    "types, floats/booleans in integer fields, duplicate keys): bounded stand-in load.arbitrary-bytes only",
+    "changes of SEVERAL committed fields at once: the stream-hash input concatenates name/key/suggested name and hash/number/"
+    "IV/length without delimiters, so bytes can be moved between adjacent fields without changing the stream hash (the sd hash "
+    "still changes); only single-field changes, swaps of whole entries and a dropped/doubled terminator are decided",
+    "that accepted-after-tampering is impossible outright: it is reduced to a SHA-384 collision (hypothesis: none is found)",
+    "the old_sort JSON form, recover(), BlobFile reader contexts and blob deletion (not in the statement)",
+]
+ASSUMPTIONS = [
+    "create_stream proofs: key of 16 bytes, IVs of 16 bytes (what create_stream itself generates), file name of 1..60 code "
+    "points without '/' and NUL and not '.'/'..' (names a POSIX directory can hold); the blob directory exists and is empty",
+    "no two blobs of one stream coincide (see NOT_DECIDED)",
+    "commitments / load / tamper proofs: 0..2 data blobs plus terminator, every field an arbitrary string / integer",
+    "blob proofs: plaintext of at most 2 MiB - 1 bytes (what file_reader hands over), AES key of 16, 24 or 32 bytes",
+]
